@@ -1,5 +1,4 @@
 // ---------------------------------------------------------------- language theorem: the epsilon-elimination automaton accepts what the epsilon-NFA accepts
-pub type ClsF = spec_fn(CharClassID, char) -> bool;
 
 // ---- the automaton handed to the minimizer, read as find_from reads it (U-dfa: step1 / reach / acc)
 pub open spec fn d_step(d: CompiledDfa, cls: ClsF, s: int, c: char, t: int) -> bool {
